@@ -329,6 +329,7 @@ def run(ctx):
     ext_rule(ctx)
     dtexact_rule(ctx, syn)
     alwaysid_rule(ctx)
+    rawtext_rule(ctx)
     from props.c11 import name_rule
     name_rule(ctx, rid="C05.NAME")   # to_file(name) / from_file(name): the manifest or store file is written under the name given
     mir_rules(ctx)
@@ -640,3 +641,37 @@ def alwaysid_rule(ctx, rid="C05.ALWAYSID"):
         if b.can_reach(0, e_, avoid=ids):
             ctx.report(r, "path-without-id", "the annotation writer can reach the end of the JSON object without having written \"@id\": an annotation without a public id then carries no temporary id in the file, the `!A<n>` references other annotations hold are resolved against renumbered handles after a reload, and they silently attach to a different annotation", b.file, b.blocks[e_]["t"].get("line"))
             break
+
+
+# ---------------------------------------------------------------------- RAWTEXT
+STRING_MUTATORS = re.compile(r"^std::string::String::(drain|remove|retain|truncate|insert|insert_str|push|push_str|pop|clear|replace_range|split_off|make_ascii_lowercase|make_ascii_uppercase)$")
+
+
+def rawtext_rule(ctx, rid="C05.RAWTEXT"):
+    """a stand-off plain text file is written as the text, byte for byte, and all offsets of the annotations count in it.
+    What TextResourceBuilder::build reads from such a file has to become the text unchanged: between read_to_string and
+    the TextResource { text, .. } that takes it, nothing edits the string (a stripped byte order mark or a trimmed line
+    end shifts every offset and changes textlen)."""
+    import mirq
+    r = ctx.rule(rid, "in TextResourceBuilder::build no String-mutating call touches the buffer filled by read_to_string before it becomes TextResource.text")
+    prog = mirq.Program(ctx.facts.mir())
+    bs = prog.find_bodies(r"resources::TextResourceBuilder::build$")
+    if len(bs) != 1:
+        ctx.anchor_missing(r, "TextResourceBuilder::build")
+        return
+    b = bs[0]
+    ctx.functions_analysed.add(b.id)
+    reads = [(bi, t) for bi, t in b.calls() if (mirq.callee_of(t)[0] or "").endswith("Read::read_to_string")]
+    if not reads:
+        ctx.anchor_missing(r, "read_to_string in TextResourceBuilder::build")
+        return
+    for bi, t in reads:
+        buf = str(b.key_of_operand(t["args"][1])).lstrip("&")
+        muts = []
+        for bj, t2 in b.calls():
+            d2 = mirq.callee_of(t2)[0] or ""
+            if STRING_MUTATORS.match(d2) and t2.get("args") and str(b.key_of_operand(t2["args"][0])).lstrip("&") == buf and b.can_reach(bi, bj):
+                muts.append((d2.split("::")[-1], t2.get("line")))
+        r.hit("read#%d" % bi, sample={"buffer": buf, "edits_after_reading": [m_[0] for m_ in muts]})
+        for name, line in muts[:1]:
+            ctx.report(r, "edited:%s" % name, "TextResourceBuilder::build calls String::%s on the text it has just read from the stand-off file: the loaded text differs from the written one, so the round trip changes the text, its length and what every offset selects" % name, b.file, line)
